@@ -6,8 +6,8 @@ from gffutils.feature import feature_from_line
 from gv.model import grammar as G
 
 ID = "C07"
-RULE = ("every line of the grammar: dialect (36) x 0..n attributes each single/2-valued/3-valued/flag x one optional "
-        "escaped reserved character (10 chars x first/middle/last) x 6 column/extra-column variants; all executions are "
+RULE = ("every line of the grammar: dialect (48) x 0..n attributes each single/2-valued/3-valued/flag x one optional "
+        "escaped reserved character (10 chars x first/middle/last) x 13 column/extra-column variants; all executions are "
         "distinct choice sequences; non-trivial = the line has >= 2 attribute parts, or an escape, or extra columns, or '.' coordinates")
 ASSUMPTIONS = [
     "keys are \\w+ (GFF3 is recognised by key= at the very start, so a valueless flag is never first in key=value style)",
@@ -31,6 +31,13 @@ COLS = [
     (("chr1", "src", "gene", ".", ".", ".", "+", "."), ()),
     (("ctg.1", "S-2", "mRNA", "1", "1", "0.5", "-", "2"), ()),
     (("ctg.1", "S-2", "mRNA", ".", "7", "1e-5", ".", "0"), ("", "t")),
+    (("chr1", "src", "gene", "10", "20", ".", "+", "."), ("7",)),
+    (("chr1", "src", "gene", "10", "20", ".", "+", "."), ("true",)),
+    (("chr1", "src", "gene", "10", "20", ".", "+", "."), ('"q"',)),
+    (("chr1", "src", "gene", "10", "20", ".", "+", "."), ("[1,2]",)),
+    (("chr1", "src", "gene", "10", "20", ".", "+", "."), ("",)),
+    (("chr1", "src", "gene", "10", ".", ".", "+", "."), ()),
+    (("chr1", "src", "gene", ".", "20", ".", "+", "."), ("null", "")),
 ]
 
 
@@ -49,7 +56,7 @@ def build_items(ch, n, d):
     items = []
     for i in range(n):
         kinds = KINDS
-        if i == 0 and d.style == "eq":
+        if i == 0 and d.style in ("eq", "eqq"):
             kinds = KINDS[:3]
         kind = ch.choose("kind%d" % i, kinds)
         nv = {"single": 1, "two": 2, "three": 3, "flag": 0}[kind]
@@ -75,7 +82,7 @@ def body(ch, ctx):
     di, n = ctx.shard
     d = G.ALL[di]
     items, esc = build_items(ch, n, d)
-    cols, extras = ch.choose("cols", COLS)
+    cols, extras = ch.choose("cols", COLS if (n <= 2 or ctx.tier != "quick") else COLS[:6])
     attrs_text = G.render_attrs(d, items)
     line = G.render_line(cols, attrs_text, extras)
     ctx.sample(lambda: dict(dialect=list(d), line=line))
